@@ -25,7 +25,7 @@ import (
 func init() {
 	Register(&Spec{
 		ID: "C17", Level: "exploration",
-		Rule: "cases = chains with several feeds (max/min/avg, latest-history 1..5, 1..3 providers, thresholds 1..N, frequency/timeouts) whose providers answer with numbers of either sign and of magnitudes 1e-6..1e300 (valid, error, missing, foreign, duplicate answers), creators and strangers starting/pausing/editing (history shrunk and grown), one creator running out of funds; after every tx and end-block each feed's value list, state index and request context are read and compared with a reference that appends exactly one exact-rational aggregate (within the float64/8-decimal bound) stamped with the block time per completed batch that met its threshold; non-trivial = a batch completion, edit or state change whose relation was evaluated; distinct = distinct (aggregate, #responses vs threshold, magnitude class, sign mix, completion site, history op, actor); since round 13: valid answers lacking the feed's field (value not judged, count is); since rounds 15-19: one transaction creating two feeds; the provider list replaced by a shorter one while a batch is open",
+		Rule: "cases = chains with several feeds (max/min/avg, latest-history 1..5, 1..3 providers, thresholds 1..N, frequency/timeouts) whose providers answer with numbers of either sign and of magnitudes 1e-6..1e300 (valid, error, missing, foreign, duplicate answers), creators and strangers starting/pausing/editing (history shrunk and grown), one creator running out of funds; after every tx and end-block each feed's value list, state index and request context are read and compared with a reference that appends exactly one exact-rational aggregate (within the float64/8-decimal bound) stamped with the block time per completed batch that met its threshold; non-trivial = a batch completion, edit or state change whose relation was evaluated; distinct = distinct (aggregate, #responses vs threshold, magnitude class, sign mix, completion site, history op, actor); since round 13: valid answers lacking the feed's field (value not judged, count is); since rounds 15-19: one transaction creating two feeds; the provider list replaced by a shorter one while a batch is open; the unfiltered listing reports every feed once, in the state of its request context",
 		Assume: []string{"which batch completed when is read from the service module's request context (C08 covers the service module itself)", "responses are numeric JSON literals; tolerance = 0.5e-8 + 2^-52*(n+1)*mean|x| derived from float64 parsing and summation"},
 		Cases:  func(t string) int { return tierN(t, 16, 48) },
 		Run:    runOracle,
@@ -58,8 +58,9 @@ type feedObs struct {
 }
 
 type oracleSnap struct {
-	Feeds map[string]*feedObs
-	Time  time.Time
+	Feeds  map[string]*feedObs
+	Time   time.Time
+	Listed map[string][]servicetypes.RequestContextState // feed name -> states of its entries in the unfiltered listing
 }
 
 type orTag struct {
@@ -102,6 +103,15 @@ const orSvc = "price"
 func (w *oracleWorkload) snapshot(ctx sdk.Context) *oracleSnap {
 	k := w.r.K.Oracle
 	s := &oracleSnap{Feeds: map[string]*feedObs{}, Time: ctx.BlockTime()}
+	// the unfiltered listing, as the query server reports it (one page holds every feed of these chains)
+	if res, err := k.Feeds(ctx, &oracletypes.QueryFeedsRequest{}); err == nil {
+		s.Listed = map[string][]servicetypes.RequestContextState{}
+		for _, e := range res.Feeds {
+			if e.Feed != nil {
+				s.Listed[e.Feed.FeedName] = append(s.Listed[e.Feed.FeedName], e.State)
+			}
+		}
+	}
 	running, paused := map[string]bool{}, map[string]bool{}
 	k.IteratorFeedsByState(ctx, servicetypes.RUNNING, func(f oracletypes.Feed) { running[f.FeedName] = true })
 	k.IteratorFeedsByState(ctx, servicetypes.PAUSED, func(f oracletypes.Feed) { paused[f.FeedName] = true })
@@ -535,6 +545,13 @@ func (w *oracleWorkload) step(site string, br *rig.BlockRecord, prev, cur *oracl
 			wantRun := c.State == servicetypes.RUNNING
 			if c.InRunning != wantRun || c.InPaused == wantRun {
 				run.Violation("C17:oracle:state-index-differs-from-request-context", det, "feed %s: context state %s but indexed running=%v paused=%v", n, c.State, c.InRunning, c.InPaused)
+			}
+			// ... and so does the entry the unfiltered listing reports for the feed (exactly one)
+			if cur.Listed != nil {
+				run.Eval(1)
+				if ls := cur.Listed[n]; len(ls) != 1 || ls[0] != c.State {
+					run.Violation("C17:oracle:listing-differs-from-request-context", det, "feed %s: context state %s, the unfiltered listing reports it %d times with states %v", n, c.State, len(ls), ls)
+				}
 			}
 			if p.Found && p.CtxFound && p.State != c.State {
 				run.Class("state-change", p.State.String()+"->"+c.State.String(), site)
